@@ -14,7 +14,10 @@ ERROR awkward_ListOffsetArray_reduce_nonlocal_nextshifts_64(
   const int64_t* parents,
   int64_t maxcount,
   int64_t nextlen,
-  const int64_t* nextcarry) {
+  const int64_t* nextcarry,
+  const int64_t* shifts,
+  int64_t lenshifts) {
+  int64_t first = 0;
   for (int64_t i = 0;  i < length;  i++) {
     int64_t start = offsets[i];
     int64_t stop = offsets[i + 1];
@@ -23,6 +26,7 @@ ERROR awkward_ListOffsetArray_reduce_nonlocal_nextshifts_64(
     // first list of its parent ('starts' may count lists that an option-type
     // node above has already removed, so it cannot be used to find that out)
     if (i == 0  ||  parents[i] != parents[i - 1]) {
+      first = i;
       for (int64_t k = 0;  k < maxcount;  k++) {
         nummissing[k] = 0;
       }
@@ -32,8 +36,13 @@ ERROR awkward_ListOffsetArray_reduce_nonlocal_nextshifts_64(
       nummissing[k]++;
     }
 
+    // Lists of the same parent that a level above has found missing in front of this
+    // one (lenshifts == 0: no level above counts). 'shifts' counts from wherever that
+    // level started counting and 'starts' is in its numbering, while 'first' is in
+    // ours: the difference is what was missing before this parent began.
+    int64_t outer = (lenshifts == 0 ? 0 : shifts[i] - (starts[parents[i]] - first));
     for (int64_t j = 0;  j < count;  j++) {
-      missing[start + j] = nummissing[j];
+      missing[start + j] = nummissing[j] + outer;
     }
   }
 
